@@ -72,10 +72,30 @@ class Weave:
     def snapshot(self):
         self.k += 1
         r = self.rng.random()
-        if r < 0.45:
+        if r < 0.40:
             s, kind = G.light_snapshot(self.rng, self.k), "light"
-        elif r < 0.75:
+        elif r < 0.68:
             s, kind = G.g_snapshot(self.rng, self.k, self.tier if self.rng.random() < 0.1 else "quick", valid=True), "valid"
+        elif r < 0.78:
+            # valid in everything except ONE thing that only the last blob encoders refuse (a ninth cue / loop, a
+            # label the format cannot hold), with the track-data fields set: the call is refused after part of the
+            # snapshot has already been encoded (round 5, seeded C10-4: a shared cache was filled before the refusal)
+            s, kind = G.g_snapshot(self.rng, self.k, "quick", valid=True), "valid-but-refused-late"
+            s["sample_rate"] = self.rng.choice([G.dbits(44100.0), G.dbits(48000.0), G.dbits(96000.0), G.dbits(22050.0)])
+            s["sample_count"] = self.rng.randrange(100000, 10 ** 8)
+            s["average_loudness"] = G.dbits(self.rng.choice([0.25, 0.5, 0.75, 0.125]))
+            s["waveform"] = b""
+            w = self.rng.randrange(4)
+            mk = lambda lab: {"label": lab, "off": G.dbits(1000.0), "color": G.color(self.rng)}
+            ml = lambda lab: {"label": lab, "start": G.dbits(1000.0), "end": G.dbits(2000.0), "color": G.color(self.rng)}
+            if w == 0:
+                s["hot_cues"] = [mk(b"c%d" % i) for i in range(9)]
+            elif w == 1:
+                s["loops"] = [ml(b"l%d" % i) for i in range(9)]
+            elif w == 2:
+                s["hot_cues"] = [mk(b"x" * 300)] + [None] * 7
+            else:
+                s["loops"] = [ml(b"")] + [None] * 7
         elif r < 0.9:
             s, kind = G.g_snapshot(self.rng, self.k, "quick", nan_ok=False, valid=False), "arbitrary"
         else:
